@@ -59,11 +59,12 @@ func ruleRestoreGuard(r *Report) {
 		h.Unknown("(*column.Collection).Restore/callback", r.P.Pos(fn.Pos()), "callback of Log.Range not recognised")
 		return
 	}
-	reps := callsTo(cb, false, "(*column.Collection).Replay")
-	if len(reps) != 1 {
+	repsD := callsToDeep(cb, false, "(*column.Collection).Replay")
+	if len(repsD) != 1 {
 		h.Bad("(*column.Collection).Restore/guard", r.P.Pos(cb.Pos()), "Replay not called exactly once in the log callback")
 		return
 	}
+	reps := []ssa.Instruction{repsD[0].Inner}
 	isID := func(v ssa.Value) bool {
 		fr, ok := loadedField(v)
 		return ok && fr.Struct == "commit.Commit" && fr.Field == "ID"
@@ -105,7 +106,7 @@ func ruleRestoreGuard(r *Report) {
 	})
 	// the commit replayed is the one tested
 	rc, _, _ := callCommon(reps[0])
-	same := sameExpr(rc.Args[1], cbParam(cb, 0))
+	same := sameExpr(rc.Args[1], cbParam(cb, 0)) || sameE(rc.Args[1], repsD[0].Env, cbParam(cb, 0), nil, 0) || isLoadOfSpill(rc.Args[1], repsD[0].Env, cbParam(cb, 0))
 	if ld, isLd := rc.Args[1].(*ssa.UnOp); isLd {
 		if al, isAl := ld.X.(*ssa.Alloc); isAl {
 			for _, ref := range *al.Referrers() {
@@ -130,6 +131,41 @@ func ruleRestoreGuard(r *Report) {
 		return false, false
 	})
 	h.Check(ok2, "(*column.Collection).Restore/state-first", r.P.Pos(fn.Pos()), "log replayed only after the state was read without error", "Restore touches the commit log although reading the state failed (or before reading it)")
+}
+
+// isLoadOfSpill: v (read in the scope env) is the struct-typed callback parameter par, possibly
+// after being handed by value to a helper and spilled to a local on each side.
+func isLoadOfSpill(v ssa.Value, env *venv, par *ssa.Parameter) bool {
+	if par == nil {
+		return false
+	}
+	for i := 0; i < 4; i++ {
+		n, e := normE(v, env, false)
+		if n == ssa.Value(par) {
+			return true
+		}
+		ld, ok := n.(*ssa.UnOp)
+		if !ok || ld.Op != token.MUL {
+			return false
+		}
+		al, ok := ld.X.(*ssa.Alloc)
+		if !ok {
+			return false
+		}
+		var stored ssa.Value
+		cnt := 0
+		for _, ref := range *al.Referrers() {
+			if st, isSt := ref.(*ssa.Store); isSt && st.Addr == ssa.Value(al) {
+				stored = st.Val
+				cnt++
+			}
+		}
+		if cnt != 1 {
+			return false
+		}
+		v, env = stored, e
+	}
+	return false
 }
 
 func ruleReadChunk(r *Report) {
@@ -183,12 +219,13 @@ func ruleReadChunk(r *Report) {
 			for _, rc := range callsTo(g, false, "(*column.Collection).readChunk") {
 				rcc, _, _ := callCommon(rc)
 				f := asFunc(rcc.Args[2])
-				if f == nil || len(f.Params) != 3 {
+				if f == nil || cbParam(f, 2) == nil || cbParam(f, 3) != nil {
 					continue
 				}
+				f = originOf(f)
 				for _, c := range callsToDeep(f, false, "(*iostream.Writer).WriteUvarint") {
 					cc, _, _ := callCommon(c.Inner)
-					if c.same(cc.Args[1], f.Params[0]) {
+					if c.same(cc.Args[1], cbParam(f, 0)) {
 						ok = true
 					}
 				}
@@ -303,7 +340,7 @@ func ruleSnapshotCleanup(r *Report) {
 					if cc == nil || isGo || !calleeIs(cc, "(*commit.Log).Close") {
 						return false
 					}
-					cl, isEx := extractOf(cc.Args[0], 0)
+					cl, isEx := extractOf(norm(cc.Args[0]), 0)
 					return isEx && cl == open[0].(*ssa.Call)
 				})
 				h.Check(ok2, "(*column.Collection).Snapshot/close", r.P.InstrPos(ex2), "temporary log closed on every exit", "an exit of Snapshot leaves the temporary log's file descriptor open")
@@ -388,12 +425,30 @@ type errException struct{ fn, callee, reason string }
 
 func ruleErrorFlow(r *Report, id, text string, floor int, fns []string, exceptions []errException) {
 	h := r.Rule(id, "X", text, floor)
+	done := map[*ssa.Function]bool{}
 	for _, name := range fns {
 		top := r.Anchor(name)
 		if top == nil {
 			continue
 		}
-		withClosures(top, func(f *ssa.Function) {
+		for _, f := range deepFuncs(top) {
+			f := f
+			if done[f] {
+				continue
+			}
+			done[f] = true
+			// a helper that is only ever invoked by `defer` is cleanup code like a deferred call
+			onlyDeferred := false
+			if f.Parent() == nil && isHelper(f) {
+				uniqueCallOf(f)
+				sites := curProg.uniq[originOf(f)]
+				onlyDeferred = len(sites) > 0
+				for _, ci := range sites {
+					if _, isD := ci.(*ssa.Defer); !isD {
+						onlyDeferred = false
+					}
+				}
+			}
 			n := 0
 			var bad *ssa.Call
 			var badDefer ssa.Instruction
@@ -434,8 +489,16 @@ func ruleErrorFlow(r *Report, id, text string, floor int, fns []string, exceptio
 				if callee == "" && c.Call.IsInvoke() {
 					callee = c.Call.Method.Name()
 				}
+				if onlyDeferred {
+					switch callee {
+					case "os.Remove", "(*commit.Log).Close", "(*os.File).Close":
+						return
+					}
+				}
 				for _, e := range exceptions {
-					if e.fn == fnName(f) && e.callee == callee {
+					// an exception names a function of the anchored root; statements moved into a
+					// helper below that root keep it
+					if e.callee == callee && (e.fn == fnName(f) || ((e.fn == name || strings.HasPrefix(e.fn, name+"$")) && isHelper(topFn(f)))) {
 						r.Note("%s: dropped error of %s in %s accepted: %s", id, callee, e.fn, e.reason)
 						return
 					}
@@ -445,11 +508,11 @@ func ruleErrorFlow(r *Report, id, text string, floor int, fns []string, exceptio
 				}
 			})
 			if n == 0 {
-				return
+				continue
 			}
 			if badDefer != nil {
 				h.Bad(fnName(f), r.P.InstrPos(badDefer), "the error of the deferred "+badDeferName+" is lost (a deferred call that still writes — flush, sync, close of a writer — must report its error)")
-				return
+				continue
 			}
 			if bad != nil {
 				callee := calleeShort(&bad.Call)
@@ -460,7 +523,7 @@ func ruleErrorFlow(r *Report, id, text string, floor int, fns []string, exceptio
 			} else {
 				h.OK(fnName(f), r.P.Pos(f.Pos()), fmt.Sprintf("%d error-returning calls, none discarded", n))
 			}
-		})
+		}
 	}
 }
 
@@ -470,32 +533,67 @@ func ruleErrorFlow(r *Report, id, text string, floor int, fns []string, exceptio
 func ruleWholeCommits(r *Report) {
 	h := r.Rule("C13.whole", "P", "Log.Range hands a commit to its callback only when it was decoded without error and returns every non-EOF error; readState lets a block's transaction commit only after every buffer of the block was read (every read error returns non-nil from the Query callback, i.e. rolls back)", 3)
 	if fn := r.Anchor("(*commit.Log).Range"); fn != nil {
-		rf := callsTo(fn, false, "(*commit.Commit).ReadFrom")
+		rf := callsToDeep(fn, false, "(*commit.Commit).ReadFrom")
 		cbs := userCallIn(fn)
 		if len(rf) != 1 || len(cbs) != 1 {
 			h.Bad("(*commit.Log).Range/callback", r.P.Pos(fn.Pos()), "ReadFrom / callback not found exactly once")
 		} else {
-			isErr := func(v ssa.Value) bool {
-				cl, ok := extractOf(norm(v), 1)
-				return ok && cl == rf[0].(*ssa.Call)
+			// the decode error: the error result of ReadFrom, possibly handed up through a helper
+			isDecodeErr := func(v ssa.Value) bool {
+				cl, ok := extractOf(v, 1)
+				return ok && ssa.Instruction(cl) == rf[0].Inner
 			}
-			ok := edgeGuarded(cbs[0].Block(), func(c ssa.Value) (bool, bool) {
-				x, nonNil, isN := nilTest(c)
-				if isN && isErr(x) {
-					return true, !nonNil
+			isErr := func(v ssa.Value) bool {
+				v = norm(v)
+				return v.Type().String() == "error" && (isDecodeErr(v) || dependsOn(v, isDecodeErr, 8))
+			}
+			var resolve func(ssa.Value) ssa.Value
+			cfg := pathCfg{names: []string{"decodeFailed"}, starLoops: true, leaf: func(c ssa.Value) (string, bool, bool) {
+				if x, nonNil, isN := nilTest(c); isN && isErr(x) {
+					return "decodeFailed", !nonNil, true
 				}
-				return false, false
-			})
-			h.Check(ok, "(*commit.Log).Range/callback", r.P.InstrPos(cbs[0]), "callback ⇐ ReadFrom returned nil", "a commit is handed to the callback although decoding it failed (a partially decoded commit would be applied)")
-			// the error is returned unless EOF
+				return "", false, false
+			}, classify: func(ins ssa.Instruction) string {
+				switch {
+				case ins == rf[0].Inner:
+					return "decode"
+				case ins == ssa.Instruction(cbs[0]):
+					return "callback"
+				}
+				return ""
+			}, withResolve: func(f func(ssa.Value) ssa.Value) { resolve = f }}
 			retErr := false
-			for _, ret := range returnsOf(fn) {
-				for _, v := range cellStoresBefore(ret) {
-					if isErr(v) {
+			ok, _ := evalPathsDeep(fn, cfg, func(as map[string]bool, ev []pathEvent, ret *ssa.Return) bool {
+				decoded := false
+				for _, e := range ev {
+					switch e.Name {
+					case "decode":
+						decoded = true
+					case "callback":
+						// invoked only after a decode that did not fail
+						if !decoded || as["decodeFailed"] {
+							return false
+						}
+						decoded = false
+					}
+				}
+				if ret != nil && as["decodeFailed"] && len(ret.Results) > 0 {
+					res := ret.Results[len(ret.Results)-1]
+					if _, isLd := res.(*ssa.UnOp); isLd {
+						if vals := cellStoresBefore(ret); len(vals) == len(ret.Results) {
+							res = vals[len(vals)-1]
+						}
+					}
+					if resolve != nil {
+						res = resolve(res)
+					}
+					if isErr(res) {
 						retErr = true
 					}
 				}
-			}
+				return true
+			})
+			h.Check(ok, "(*commit.Log).Range/callback", r.P.InstrPos(cbs[0]), "callback ⇐ ReadFrom returned nil", "a commit is handed to the callback although decoding it failed (a partially decoded commit would be applied)")
 			h.Check(retErr, "(*commit.Log).Range/error", r.P.Pos(fn.Pos()), "decode errors are returned", "Log.Range does not return the decode error")
 		}
 	}
@@ -510,6 +608,14 @@ func ruleWholeCommits(r *Report) {
 		if inner == nil {
 			h.Unknown("(*column.Collection).readState/txn", r.P.Pos(fn.Pos()), "per-block transaction callback not recognised")
 			return
+		}
+		// the body of the per-block transaction: the closure itself or the helper it delegates to
+		txnCb := inner
+		for _, g := range deepFuncs(inner) {
+			if len(callsTo(g, false, "(*commit.Buffer).ReadFrom")) > 0 {
+				inner = g
+				break
+			}
 		}
 		// every `return nil` is outside the loop that reads the buffers
 		rf := callsTo(inner, false, "(*commit.Buffer).ReadFrom")
@@ -549,8 +655,15 @@ func ruleWholeCommits(r *Report) {
 		})
 		// the loop around ReadFrom runs exactly `columns` times (the count read from the header)
 		bound := len(rf) == 1 && countedLoop(inner, rf[0].Block(), func(v ssa.Value) bool {
-			cl, isEx := extractOf(norm(v), 0)
-			return isEx && calleeIs(&cl.Call, "(*iostream.Reader).ReadUvarint")
+			isCountRead := func(x ssa.Value) bool {
+				if cl, isEx := extractOf(x, 0); isEx && calleeIs(&cl.Call, "(*iostream.Reader).ReadUvarint") {
+					return true
+				}
+				cl, isCall := x.(*ssa.Call)
+				return isCall && calleeIs(&cl.Call, "(*iostream.Reader).ReadUvarint")
+			}
+			v = norm(v)
+			return isCountRead(v) || dependsOn(v, isCountRead, 5)
 		})
 		h.Check(ok && nNil == 1 && appOK && bound, "(*column.Collection).readState/block", r.P.Pos(inner.Pos()), "nil only after all `columns` buffers were read", "a block's transaction can commit although not every buffer of the block was read (a truncated block is applied partially)")
 		// goes through Query
@@ -558,7 +671,7 @@ func ruleWholeCommits(r *Report) {
 		withClosures(fn, func(f *ssa.Function) {
 			for _, c := range callsTo(f, false, "(*column.Collection).Query") {
 				cc, _, _ := callCommon(c)
-				if asFunc(cc.Args[1]) == inner {
+				if asFunc(cc.Args[1]) == txnCb {
 					q = true
 				}
 			}
@@ -716,9 +829,10 @@ func ruleSnapshotCount(r *Report) {
 		h.Check(ok && n >= 1, "(*column.Collection).chunks/extent", r.P.Pos(ch.Pos()), "block count = block of the highest live offset + 1", "the number of blocks (written to a snapshot, back-filled into a new index) is not derived from the highest set bit of the fill list: in a sparse collection rows live in blocks beyond count/16384 and are left out")
 		if ws := r.P.Fn("(*column.Collection).writeState"); ws != nil {
 			used := false
-			for _, c := range callsTo(ws, false, "(*iostream.Writer).WriteRange") {
-				cc, _, _ := callCommon(c)
-				if cl, isC := norm(cc.Args[1]).(*ssa.Call); isC && calleeIs(&cl.Call, "(*column.Collection).chunks") {
+			for _, c := range callsToDeep(ws, false, "(*iostream.Writer).WriteRange") {
+				cc, _, _ := callCommon(c.Inner)
+				nv, _ := normE(cc.Args[1], c.Env, false)
+				if cl, isC := nv.(*ssa.Call); isC && calleeIs(&cl.Call, "(*column.Collection).chunks") {
 					used = true
 				}
 			}
@@ -728,14 +842,16 @@ func ruleSnapshotCount(r *Report) {
 	if ws := r.Anchor("(*column.Collection).writeState"); ws != nil {
 		// columns := Count()+1
 		plus1 := false
-		allInstrs(ws, func(ins ssa.Instruction) {
+		deepVisit(ws, func(ins, _ ssa.Instruction) {
 			if bo, ok := ins.(*ssa.BinOp); ok && bo.Op == token.ADD {
-				if one, isC := constInt(bo.Y); isC && one == 1 {
-					if dependsOn(bo.X, func(v ssa.Value) bool {
-						c, ok := v.(*ssa.Call)
-						return ok && calleeIs(&c.Call, "(*column.columns).Count")
-					}, 3) {
-						plus1 = true
+				for _, pair := range [][2]ssa.Value{{bo.X, bo.Y}, {bo.Y, bo.X}} {
+					if one, isC := constInt(pair[1]); isC && one == 1 {
+						if dependsOn(pair[0], func(v ssa.Value) bool {
+							c, ok := v.(*ssa.Call)
+							return ok && calleeIs(&c.Call, "(*column.columns).Count")
+						}, 3) {
+							plus1 = true
+						}
 					}
 				}
 			}
@@ -1233,7 +1349,7 @@ func ruleSerialFields(r *Report) {
 			continue
 		}
 		read := map[string]bool{}
-		withClosures(w, func(f *ssa.Function) {
+		for _, f := range deepFuncs(w) {
 			allInstrs(f, func(ins ssa.Instruction) {
 				if fa, ok := ins.(*ssa.FieldAddr); ok {
 					if fr, ok := fieldOf(fa); ok && fr.Struct == sp.pkg+"."+sp.typ {
@@ -1241,9 +1357,9 @@ func ruleSerialFields(r *Report) {
 					}
 				}
 			})
-		})
+		}
 		stored := map[string]bool{}
-		withClosures(rd, func(f *ssa.Function) {
+		for _, f := range deepFuncs(rd) {
 			allInstrs(f, func(ins ssa.Instruction) {
 				if s, ok := ins.(*ssa.Store); ok {
 					if fr, ok := fieldOf(s.Addr); ok && fr.Struct == sp.pkg+"."+sp.typ {
@@ -1251,7 +1367,7 @@ func ruleSerialFields(r *Report) {
 					}
 				}
 			})
-		})
+		}
 		for i := 0; i < st.NumFields(); i++ {
 			f := st.Field(i).Name()
 			if sp.skip[f] {
